@@ -12,6 +12,7 @@
   loop's hand-over, the one-at-a-time connection's id check, the DoH body limit) is in Props/C01Up.lean.
 -/
 import MosVerif.Lemmas.WireSafe
+import MosVerif.Lemmas.TranslatedCodecMsg
 import MosVerif.Props.C01Up
 namespace MosVerif.C01
 open MosVerif.Wire
@@ -19,8 +20,7 @@ open MosVerif.Wire
 /-- evaluates the (well-founded, hence not `decide`-reducible) decoder on a literal by rewriting -/
 macro "wire_eval" : tactic => `(tactic|
   simp [unpackMsg, sliceFrom, unpackQuestions, unpackResources, unpackQuestion, unpackResource, unpackRHdr,
-    unpackRData, unpackName, nameLoop, hopLimit, nameCap, MosVerif.Facts.name_hopLimit,
-    MosVerif.Facts.name_lenLimit, Bind.bind, Res.bind, be16, be32, u16At, u32At, bytesAt])
+    unpackRData, unpackName, nameLoop, hopLimit, nameCap, Bind.bind, Res.bind, be16, be32, u16At, u32At, bytesAt])
 
 /-- ★ No byte string makes the message decoder panic (index/slice out of range, scratch
     buffer overflow).  No bound on the length of `msg`. -/
@@ -68,9 +68,12 @@ example : unpackMsg [0,1, 1,0, 0xFF,0xFF, 0,0, 0,0, 0,0] = .err := by wire_eval
 example : ∃ m, unpackMsg [0,1, 1,0, 0,1, 0,0, 0,0, 0,0, 1,97, 0, 0,1, 0,1] = .ok m ∧ m.questions.length = 1 :=
   by wire_eval
 
-/-- tie: the constants the decoder's guards are written with. -/
+/-- tie: the decoder's guards (hop limit, `& 0xC0`, `len(name)+1+c+1 > 255`, every bound test) are no longer
+    pinned as text — `Lemmas/TranslatedCodec*.lean` prove the model equal to the translation of the current
+    source. What the translation does NOT see is pinned here: the scratch slice aliases the builder's array
+    (`GoSem.builderToName` is the hand-written semantics of exactly these two fragments). -/
 theorem pins :
-    Facts.name_hopLimit = 10 ∧ Facts.name_lenLimit = 255 ∧ Facts.name_ptrMask = 0xC0 ∧
-    Facts.name_lenLimitSrc = "len(name)+1+c+1 > 255" := by decide
+    Facts.name_scratch = "name := n.buf[:0]" ∧
+    Facts.name_toName = "{ buf := pool.GetBuf(int(b.l)) copy(buf, b.buf[:]) return Name(buf) }" := by decide
 
 end MosVerif.C01
